@@ -54,10 +54,10 @@ Definition ev_out (e : ev) : str :=
 
 Definition T_C21 : str := [99; 50; 49].   (* "c21" *)
 
-(* c21 jobs nworkers worker... -> halted ("-" = ran to completion, "F" = fuel) , result>0, events oldest first *)
+(* c21 jobs reap_first nworkers worker... -> halted ("-" = ran to completion, "F" = fuel) , result>0, events oldest first *)
 Definition run (fields : list str) : list str :=
   match fields with
-  | tag :: jobs :: rest =>
+  | tag :: jobs :: rf :: rest =>
       if tag_is tag T_C21 then
         match take_list take_worker rest with
         | Some (ws, _) =>
@@ -66,7 +66,7 @@ Definition run (fields : list str) : list str :=
             let status := fun f => status_of (nth_worker ws f) in
             let st0 := init in
             let fuel := S (measure files stream st0) in
-            let st := run_sched files (N.to_nat (nd jobs)) stream status fuel st0 in
+            let st := run_sched files (N.to_nat (nd jobs)) stream status (bool_of_str rf) fuel st0 in
             let h := match halted st with
                      | Some c => dec_of_N c
                      | None => if done files st then [] else [70]
